@@ -134,7 +134,7 @@ def gen_workload(tape):
             # change the exclusions on the live object: clear them (empty list
             # or None) or set new ones
             o["what"] = tape.pick(["times", "files", "both"], "exwhat")
-            o["how"] = tape.pick(["empty", "none", "new"], "exhow")
+            o["how"] = tape.pick(["empty", "none", "new", "invalid"], "exhow")
             o["names"] = [tape.choice(20, "exn2") for _ in range(tape.count(0, 2, "nexn2", (1, 2)))]
             o["periods"] = []
             for _ in range(tape.count(0, 2, "nexp2", (1, 2))):
@@ -244,7 +244,13 @@ def resolve(pt, files_cov, default):
         return base
 
 
+class _Accepted(Exception):
+    """typhon accepted an input the model has no meaning for."""
+
+
 class Run:
+    stopped = False
+
     def __init__(self, w, tape, scratch):
         self.w, self.tape = w, tape
         self.t = w["t"]
@@ -441,8 +447,12 @@ class Run:
     PREFIX = "C01"
 
     def guarded_op(self, i, o):
+        if self.stopped:
+            return
         try:
             self.op(i, o)
+        except _Accepted:
+            self.stopped = True       # the rest of the history is not judged
         except AssertionError:
             raise
         except Exception as e:  # noqa: anything typhon raised outside the guarded calls
@@ -536,6 +546,15 @@ class Run:
             if w["single"]:
                 return
             covs_now = [self.cov(f) for f in self.files]
+            if o["how"] == "invalid":
+                # a user error: a period without end. The call fails - and
+                # leaves the exclusions that were in force as they were
+                try:
+                    self.fs.exclude_times([(F.BASE, None)])
+                except Exception:  # noqa: the expected outcome
+                    self.probe("exclude_times_failed_on_invalid_period")
+                    return
+                raise _Accepted()      # accepted: meaning unknown to the model
             if o["what"] in ("times", "both"):
                 if o["how"] == "new":
                     per = []
